@@ -811,7 +811,7 @@ impl AwsClientBuilder {
     }
 
     fn build_final_connect_options(&self, connect_options: ConnectOptions) -> ConnectOptions {
-        let is_auto_assigned_client_id = connect_options.client_id().is_none();
+        let is_auto_assigned_client_id = connect_options.client_id().as_ref().map_or(true, |client_id| client_id.is_empty());
         let mut final_connect_options_builder = ConnectOptions::builder_from_existing(connect_options);
 
         if let Some(options) = &self.custom_auth_options {
